@@ -27,13 +27,14 @@ type cfgx = {
   src : n list;
   dst : n list;
   file : n list;
+  pre : int option;
 }
 
 let parse_cfg (hdr : string list) : cfgx =
   let mode = ref Acked and nakp = ref (Deferred N0) and seg = ref 32 and large = ref false
   and crc = ref false and maxc = ref 3 and ti = ref 10 and ta = ref 3 and tn = ref 4
   and handlers = ref [] and closure = ref false and ck = ref CkModular
-  and src = ref (bytes_of_hex "73") and dst = ref (bytes_of_hex "64") and file = ref [] and idw = ref 1 in
+  and src = ref (bytes_of_hex "73") and dst = ref (bytes_of_hex "64") and file = ref [] and idw = ref 1 and pre = ref None in
   List.iter
     (fun kv ->
       match String.index_opt kv '=' with
@@ -68,6 +69,7 @@ let parse_cfg (hdr : string list) : cfgx =
           | "dst" -> dst := bytes_of_hex v
           | "file" -> file := bytes_of_hex v
           | "idw" -> idw := int_of_string v
+          | "pre" -> pre := Some (int_of_string v)
           | _ -> ()))
     (List.tl hdr);
   let cfg =
@@ -76,7 +78,7 @@ let parse_cfg (hdr : string list) : cfgx =
       cfg_t_nak = n_of_int (!tn * 1000); cfg_handlers = !handlers; cfg_src = n_of_int 1;
       cfg_dst = n_of_int 2; cfg_seq = n_of_int 7; cfg_idw = n_of_int !idw; cfg_seqw = n_of_int !idw }
   in
-  { cfg; nakp = !nakp; closure = !closure; ck = !ck; src = !src; dst = !dst; file = !file }
+  { cfg; nakp = !nakp; closure = !closure; ck = !ck; src = !src; dst = !dst; file = !file; pre = !pre }
 
 (* the parameters of the models are instantiated in Coq (Model/TxInst.v) and extracted *)
 type fsx = flat_fs
@@ -202,7 +204,8 @@ let run_recv path =
       Printf.printf "CASE %s\n" (List.hd hdr);
       let c = parse_cfg hdr in
       let now = ref Z.zero in
-      let st = ref (r_new N0 c.cfg c.nakp ([] : fsx)) in
+      let fs0 : fsx = match c.pre with Some k when not (List.mem (n_of_int 47) c.dst) -> [ (c.dst, List.init k (fun _ -> n_of_int 0xEE)) ] | _ -> [] in
+      let st = ref (r_new N0 c.cfg c.nakp fs0) in
       let stop = ref false in
       let idle = ref "" in
       List.iter
